@@ -183,6 +183,11 @@ func (ms *Modules) add(n Node) error {
 		return fmt.Errorf("duplicate %s %s at %s and %s", kind, fullName, Source(o), Source(n))
 	}
 	m[fullName] = mod
+	// A new module may share a namespace that has already been looked up;
+	// forget the cached answers.
+	ms.nsMu.Lock()
+	ms.byNS = map[string]*Module{}
+	ms.nsMu.Unlock()
 	if fullName == name {
 		return nil
 	}
